@@ -54,6 +54,18 @@ def run_case(case):
             d = f[:-3]
             if any(g.startswith(d + '/') for g in files):
                 del files[f]
+    # a sibling top-level package whose name merely starts with the name
+    # of another one (shop / shopping)
+    twin = None
+    tops0 = sorted({f.split('/')[0] for f in files if '/' in f
+                    and trees.IDENT.match(f.split('/')[0])})
+    if tops0 and rng.random() < 0.12:
+        t = rng.choice(tops0)
+        twin = (t, t + 'ping')
+        for f, k in list(files.items()):
+            if f.startswith(t + '/') and not any(
+                    f.startswith(l + '/') or f == l for l in files.links):
+                files[twin[1] + f[len(t):]] = k
     root = vworld.scratch_dir('c14-')
     trees.write_tree(root, files, order=rng)
     with open(os.path.join(root, 'world.json'), 'w') as f:
@@ -106,7 +118,16 @@ def run_case(case):
         argv += ['--ignore_dir', ign[0]]
     start_dirs = None
     package = None
-    if rng.random() < 0.12 and ident_tops and len(set(roots)) == 1:
+    if twin and len(set(roots)) == 1 and not tp_outer:
+        # -s shop -s shopping (either order): both are searched
+        pk = list(twin)
+        if rng.random() < 0.5:
+            pk.reverse()
+        package = pk[0]
+        start_dirs = pk
+        for x in pk:
+            argv += ['-s', x]
+    elif rng.random() < 0.12 and ident_tops and len(set(roots)) == 1:
         top = rng.choice(ident_tops)
         subs = [d for d in trees.listing(files, top)[0]
                 if trees.IDENT.match(d)]
@@ -233,8 +254,9 @@ def run_case(case):
             parts = f.split('/')[:-1]
             for i in range(1, len(parts) + 1):
                 allowed_inits.add('/'.join(parts[:i]) + '/__init__.py')
-        if package:
-            parts = package.split('.')
+        for pkg in ([package] if package else []) + [
+                d.replace('/', '.') for d in (start_dirs or [])]:
+            parts = pkg.split('.')
             for i in range(1, len(parts) + 1):
                 allowed_inits.add('/'.join(parts[:i]) + '/__init__.py')
         for f in optional:
@@ -280,6 +302,8 @@ def run_case(case):
                       plain=cand_imports[:8], scrambled=imp2[:8])
     finally:
         vworld.destroy(root)
+    if twin and start_dirs and len(start_dirs) == 2:
+        C('prefix_sibling_package_cases')
     if multi:
         C('multi_root_cases')
     if mpats:
